@@ -375,6 +375,24 @@ def c13_4(ctx: Ctx) -> RuleResult:
         bad = next((sd for sd in sides if not sd[2]), None)
         res.add(m, sides[0][0], f"{fam} differences use transforms.{tr}.{meth}(lower, upper), component 0 stored as lower and 1 as upper", ok,
                 "" if ok else f"`{show(bad[1], 100)}`: wrong transform, or lower/upper swapped", construct=f"transform: {fam}")
+        # the differences of a family are absent (None) when it was not computed - a failing evaluation has no
+        # non-linear differences - so each back-transform runs only where its own differences exist (sibling agreement)
+        from ..util import bool_nnf, path_condition
+
+        present = False
+        for t_, pol in path_condition(ctx, m, sides[0][0]):
+            g_ = bool_nnf(t_ if pol else ("unary", "not", t_))
+            for it in (g_[1] if g_[0] == "and" else [g_]):
+                if it[0] != "lit":
+                    continue
+                a_ = it[1]
+                if a_[0] == "cmp" and a_[1] in ("is", "is not") and C(None) in (a_[2], a_[3]) and (it[2] == (a_[1] == "is not")):
+                    o_ = a_[3] if a_[2] == C(None) else a_[2]
+                    if o_[0] == "attr" and o_[2] in (f"{fam}_lower", f"{fam}_upper") and o_[1][0] == "param":
+                        present = True
+        res.add(m, sides[0][0], f"the {fam} differences are back-transformed only where they exist (`self.{fam}_lower is not None`)", present,
+                "" if present else f"the {fam} back-transform runs whenever the transform is configured: for a result without {fam} differences (a failing evaluation) an assertion fails / None is transformed - an internal exception instead of the failing result being delivered",
+                construct=f"transform: {fam} differences present")
     rets = [r for r in nodes_in(m, ast.Return) if r.value is not None]
     ok = any(isinstance(r.value, ast.Call) and ast.unparse(r.value.func) in (c.name, "cls") for r in rets)
     res.add(m, m.node, "a new ConstraintInfo is constructed from the differences, so __post_init__ recomputes the violations in the user domain", ok,
